@@ -129,31 +129,22 @@ theorem C02_last_column_exact_doc (version : Nat) (cif : WCif) (o : Str) (c' : C
 theorem C02_clean_of_line_hypotheses (cif : WCif) (h : containersL cif) : containersX cif := containersX_of_L cif h
 
 set_option maxRecDepth 100000 in
-/-- **C02_cex_column_cr** — the hypothesis "no CR in strings" is necessary: `cif_analyze_string` takes a lone CR for a line
-    terminator, so `length_last` of `a<LF>b<CR>cd` is 2, `write_triple_quoted` sets `last_column` to 2 + 3 = 5, but the output line is
-    `b<CR>cd'''` — 7 units since the last line feed.  (A CR cannot survive a round trip anyway: `C02_cex_cr_string`.) -/
+/-- **C02_cex_column_cr** — why "no CR in strings" is needed for exactness, and why `write_char` refuses a CR before anything
+    else (repair of F-cr-altered): behind that test (`writeCharCore`), `cif_analyze_string` takes a lone CR for a line terminator,
+    so `length_last` of `a<LF>b<CR>cd` is 2 and `write_triple_quoted` would set `last_column` to 2 + 3 = 5 where the output line
+    `b<CR>cd'''` has 7 units since the last line feed.  Since the repair this state is unreachable: `C02_cr_refused`. -/
 theorem C02_cex_column_cr :
-    ∃ o c', writeChar {} (a!"a\nb\rcd") true true = .ok (o, c') ∧ c'.lastColumn = 5 ∧ C02_lastLineLength o = 7 := by
-  have h : (match writeChar {} (a!"a\nb\rcd") true true with
+    ∃ o c', writeCharCore {} (a!"a\nb\rcd") true true = .ok (o, c') ∧ c'.lastColumn = 5 ∧ C02_lastLineLength o = 7 := by
+  have h : (match writeCharCore {} (a!"a\nb\rcd") true true with
       | .ok (o, c') => decide (c'.lastColumn = 5 ∧ C02_lastLineLength o = 7)
       | .error _ => false) = true := by decide +kernel
-  cases hw : writeChar {} (a!"a\nb\rcd") true true with
+  cases hw : writeCharCore {} (a!"a\nb\rcd") true true with
   | error e => rw [hw] at h; cases h
   | ok p =>
     obtain ⟨o, c'⟩ := p
     rw [hw] at h
     simp only [decide_eq_true_eq] at h
     exact ⟨o, c', rfl, h.1, h.2⟩
-
-set_option maxRecDepth 100000 in
-/-- **C02_cex_cr_written_raw** (finding F-cr-altered; replay corpus/writeval/findings.req, corpus/writeval11/regressions.req) — the
-    hypothesis "no CR" of the round-trip theorems is necessary: in both output versions `cif_write` SUCCEEDS on the string
-    `a<CR>b` and hands the CR to the output as it is (inside triple quotes in CIF 2.0, inside a text field in CIF 1.1); every CIF
-    reader normalises a CR to a line terminator (property C08), so the value read back is `a<LF>b`: success with altered content. -/
-theorem C02_cex_cr_written_raw :
-    C02Doc.written (writeCif 0 (C02Doc.oneItem (.chr true (a!"a\rb")))) = a!"#\\#CIF_2.0\n\ndata_b\n\n_x '''a\rb'''\n\n\n\n"
-    ∧ C02Doc.written (writeCif 1 (C02Doc.oneItem (.chr true (a!"a\rb")))) = a!"#\\#CIF_1.1\n\ndata_b\n\n_x \n;a\rb\n;\n\n\n\n" := by
-  decide +kernel
 
 -- non-vacuity: the sample document of `C02_roundtrip_doc` is clean, and a step with a list, a table and a text field
 example : containersX C02Doc.sample := C02_clean_of_line_hypotheses _ C02_roundtrip_doc_instance.1
